@@ -15,6 +15,33 @@ LIBFNS = {}      # qualified name -> (python impl, statement)
 METHODS = {}     # (typeclass, method) -> (impl, statement)
 
 
+import json as _json
+import os as _os
+
+_SHAPES_FILE = _os.path.join(_os.path.dirname(_os.path.abspath(__file__)), "callshapes.json")
+RECORD_SHAPES = set() if _os.environ.get("PYVC_RECORD_SHAPES") else None
+# shapes whose handlers were reviewed by hand although the unchanged tree does not use them (the duals of recorded
+# ones: np.max next to np.min, dict.get with one argument, min next to max)
+EXTRA_SHAPES = {"lib:np.max/1/", "lib:numpy.max/1/", "method:dict.get/1/", "builtin:min/1/key", "builtin:min/2/",
+                "builtin:max/2/", "builtin:abs/1/", "builtin:bool/1/", "builtin:tuple/1/"}
+try:
+    KNOWN_SHAPES = set(_json.load(open(_SHAPES_FILE))) | EXTRA_SHAPES
+except Exception:
+    KNOWN_SHAPES = None
+
+
+def dump_shapes():
+    """merge the shapes recorded in this process into pyvc/callshapes.json"""
+    if RECORD_SHAPES is None:
+        return
+    old = set()
+    try:
+        old = set(_json.load(open(_SHAPES_FILE)))
+    except Exception:
+        pass
+    _json.dump(sorted(old | RECORD_SHAPES), open(_SHAPES_FILE, "w"), indent=0)
+
+
 def libfn(*names, stmt=""):
     def deco(f):
         for n in names:
@@ -271,7 +298,11 @@ class Lib:
         """-> (n, getter(state, k) -> SV)"""
         if isinstance(node, ast.Call) and isinstance(node.func, ast.Name):
             fn = node.func.id
+            if fn in ("range", "zip", "list", "tuple", "iter") and node.keywords:
+                raise self.E.Unsupported("%s(...) with keyword arguments" % fn)
             if fn == "range":
+                if not 1 <= len(node.args) <= 3:
+                    raise self.E.Unsupported("range with %d arguments" % len(node.args))
                 args = [ex.ev(st, a) for a in node.args]
                 if len(args) == 1:
                     lo, hi, stp = z3.IntVal(0), ex.to_int(args[0]), z3.IntVal(1)
@@ -286,8 +317,13 @@ class Lib:
                     n = z3.If(hi > lo, hi - lo, z3.IntVal(0))
                 return n, (lambda s, k: SV(INT, lo + k * stp))
             if fn == "enumerate":
+                kw = {k.arg: k.value for k in node.keywords}
+                if len(node.args) not in (1, 2) or set(kw) - {"start"} or (len(node.args) == 2 and kw):
+                    raise self.E.Unsupported("enumerate form")
+                start_node = node.args[1] if len(node.args) == 2 else kw.get("start")
+                start = ex.to_int(ex.ev(st, start_node)) if start_node is not None else z3.IntVal(0)
                 n, g = self.iteration(ex, st, node.args[0])
-                return n, (lambda s, k: SV(TPy("pytuple"), py=[SV(INT, k), g(s, k)]))
+                return n, (lambda s, k: SV(TPy("pytuple"), py=[SV(INT, start + k), g(s, k)]))
             if fn == "zip" and len(node.args) == 1 and isinstance(node.args[0], ast.Starred):
                 # zip(*x): transposition of a list of equally long lists; item k = [row[k] for row in x]
                 x = ex.ev(st, node.args[0].value)
@@ -463,6 +499,23 @@ class Lib:
         return r
 
     # ---------------------------------------------------------------- calls
+    def check_shape(self, ex, st, kind, name, node):
+        """A library call in the CODE is accepted only in an argument shape (number of positional arguments, names
+        of keyword arguments) that was recorded from the unchanged tree (pyvc/callshapes.json, written by
+        `PYVC_RECORD_SHAPES=1 tools/regress.sh`): the assumed contract of e.g. enumerate(xs) says nothing about
+        enumerate(xs, 1) or split(sep, maxsplit), and a handler that ignores the extra argument would silently
+        model the wrong function.  Unknown shapes make the contract inapplicable (STALE)."""
+        if st.spec:
+            return
+        shape = "%s:%s/%d/%s" % (kind, name, len(node.args) + (1000 if any(isinstance(a, ast.Starred)
+                                                                      for a in node.args) else 0),
+                                 ",".join(sorted(k.arg or "**" for k in node.keywords)))
+        if RECORD_SHAPES is not None:
+            RECORD_SHAPES.add(shape)
+            return
+        if KNOWN_SHAPES is not None and shape not in KNOWN_SHAPES:
+            raise self.E.Unsupported("library call shape %s was not validated on the unchanged tree" % shape)
+
     def call(self, ex, st, node):
         f = node.func
         # ---- spec-only / builtin names
@@ -474,6 +527,7 @@ class Lib:
             if name in ex.ghost_fns or any(name in sc for sc in ex.ghost_scope):
                 return self.call_ghost(ex, st, name, node)
             if h is not None:
+                self.check_shape(ex, st, "builtin", name, node)
                 return h(ex, st, node)
         fv = ex.ev(st, f)
         if fv.t is not FUNC:
@@ -488,6 +542,7 @@ class Lib:
                 return self.call_contract(ex, st, callee, node)
             if qual in LIBFNS:
                 impl, stmt = LIBFNS[qual]
+                self.check_shape(ex, st, "lib", qual, node)
                 ex.used_lib.add("%s: %s" % (qual, stmt))
                 return impl(ex, st, node)
             short = qual.split(".")[-1]
@@ -504,6 +559,7 @@ class Lib:
                     return self.call_contract(ex, st, lc, node, self_sv=base, self_node=fv.py[3])
             if key in METHODS:
                 impl, stmt = METHODS[key]
+                self.check_shape(ex, st, "method", "%s.%s" % key, node)
                 if stmt:
                     ex.used_lib.add("%s.%s: %s" % (tc, attr, stmt))
                 return impl(ex, st, base, node, fv.py[3])
@@ -1103,6 +1159,14 @@ class Lib:
         a = ex.ev(st, node.args[0])
         return flatten(ex, st, a)
 
+    def b_flat_off(self, ex, st, node):
+        """spec: flat_off(xss, k) = position in flatten(xss) at which block k starts (sum of the first k lengths)"""
+        a = ex.ev(st, node.args[0])
+        k = ex.to_int(ex.ev(st, node.args[1]))
+        if not st.binders:
+            flatten(ex, st, a)      # the defining facts of the offsets of this particular block list
+        return SV(INT, ex.uf("flat_off_" + a.t.key(), a.t.sort(), z3.IntSort(), z3.IntSort())(a.z, k))
+
     def _infix_at(self, ex, xs, ys, o):
         j = ex.bvar("j")
         lx, ly = ex.seq_len(xs), ex.seq_len(ys)
@@ -1423,20 +1487,22 @@ def flatten(ex, st, a):
         k = ex.bvar("k")
         i = ex.bvar("i")
         p = ex.bvar("p")
-        ex.assume(st, off(a.z, 0) == 0)
-        ex.assume(st, z3.ForAll([k], z3.Implies(z3.And(0 <= k, k < n),
+        ex.define(st, off(a.z, 0) == 0)
+        ex.define(st, z3.ForAll([k], z3.Implies(z3.And(0 <= k, k < n),
                                                 off(a.z, k + 1) == off(a.z, k) + inner.len(aa[k])),
                                 patterns=[off(a.z, k + 1)]))
-        ex.assume(st, z3.ForAll([k], z3.Implies(z3.And(0 <= k, k < n),
+        ex.define(st, z3.ForAll([k], z3.Implies(z3.And(0 <= k, k < n),
                                                 off(a.z, k + 1) == off(a.z, k) + inner.len(aa[k])),
                                 patterns=[aa[k]]))
-        ex.assume(st, rt.len(r.z) == off(a.z, n))
+        ex.define(st, rt.len(r.z) == off(a.z, n))
         # element view, both directions
-        ex.assume(st, z3.ForAll([k, i], z3.Implies(z3.And(0 <= k, k < n, 0 <= i, i < inner.len(aa[k])),
+        ex.define(st, z3.ForAll([k, i], z3.Implies(z3.And(0 <= k, k < n, 0 <= i, i < inner.len(aa[k])),
                                                    z3.And(rt.arr(r.z)[off(a.z, k) + i] == inner.arr(aa[k])[i],
-                                                          blk(a.z, off(a.z, k) + i) == k)),
+                                                          blk(a.z, off(a.z, k) + i) == k,
+                                                          # the position lies inside the concatenation
+                                                          0 <= off(a.z, k), off(a.z, k) + i < rt.len(r.z))),
                                 patterns=[inner.arr(aa[k])[i]]))
-        ex.assume(st, z3.ForAll([p], z3.Implies(z3.And(0 <= p, p < rt.len(r.z)),
+        ex.define(st, z3.ForAll([p], z3.Implies(z3.And(0 <= p, p < rt.len(r.z)),
                                                 z3.And(0 <= blk(a.z, p), blk(a.z, p) < n,
                                                        off(a.z, blk(a.z, p)) <= p,
                                                        p < off(a.z, blk(a.z, p) + 1),
